@@ -92,7 +92,7 @@ def gen_exhaustive(triple, length, kinds, rng):
         key = tuple(g.lines)
         if key not in seen:      # "repeat"/"part" fall back to a fresh value when there is nothing to repeat: drop duplicates
             seen.add(key)
-            out.append(g.finish(execute=(len(out) // 16) % 3 if len(out) % 16 == 0 else None))
+            out.append(g.finish(execute=(len(out) // 16) % 4 if len(out) % 16 == 0 else None))
     return out
 
 
@@ -141,8 +141,8 @@ def gen_random(rng, max_len, idx):
             g.lines.append("Q")
         elif r < 0.06:
             g.lines += ["Q", "F"]
-    return g.finish(embed=(idx % 6, rng.choice([0, 1, 2, 3, 5, 8, 13, 16, 31, 32, 33, 63, 64, 65, 100])) if idx % 2 == 0 else None,
-                    execute=(idx // 3) % 3 if idx % 3 == 0 else None), g.stats
+    return g.finish(embed=(idx % 8, rng.choice([0, 1, 2, 3, 5, 8, 13, 16, 31, 32, 33, 63, 64, 65, 100])) if idx % 2 == 0 else None,
+                    execute=(idx // 3) % 4 if idx % 3 == 0 else None), g.stats
 
 
 def gen_fixed():
@@ -174,11 +174,13 @@ def gen_fixed():
     # invalid sizes on an empty and a non-empty pool
     out.append(seq([(0, b""), (3, b"abc"), (65, bytes(65)), (8, w[:8]), (0, b""), (12, w[:12]), (128, bytes(80)), ((1 << 64) - 1, b"x"), (8, w[:8])], (0, 9)))
     # empty pool through every emitter
-    for m in range(6):
+    for m in range(8):
         out.append(seq([], (m, 6)))
+    out.append(seq([(16, w[:16]), (8, w[8:16]), (2, w[:2]), (64, w), (1, w[5:6])], (6, 5)))
+    out.append(seq([(16, w[:16]), (8, w[8:16]), (2, w[:2]), (64, w), (1, w[5:6])], (7, 9)))
     out.append(seq([(16, w[:16]), (8, w[8:16]), (2, w[:2]), (32, w[:32])], (5, 3)))
     # host execution: read every constant back through its label, all three emitters, empty and non-empty pools
-    for m in range(3):
+    for m in range(4):
         out.append(seq([(1, b"\x01"), (8, w[8:16]), (1, b"\x03"), (2, w[2:4]), (4, w[4:8]), (64, w), (32, w[32:]), (4, w[60:]), (16, w[16:32]), (3, b"abc"), (1, b"\x01")], None, m))
         out.append(seq([], None, m))
     out.append(seq([(8, w[:8]), (4, w[4:8]), (1, b"\x77")], (4, 2)))
@@ -253,6 +255,9 @@ class Monitor:
             if o + s > size:
                 self.report("C19/size-does-not-cover", "size()=%d but a constant of %d bytes lives at %d" % (size, s, o))
                 break
+        pay = sum(s for (_, s, _) in self.stored)
+        if size > 2 * pay:
+            self.report("C19/size-exceeds-twice-payload", "size()=%d but the constants own only %d bytes (C19_quirk_cost: size <= 2 * payload)" % (size, pay))
         if align != self.maxsize:
             self.report("C19/alignment-not-max", "alignment()=%d, largest constant added has %d bytes" % (align, self.maxsize))
         if self.adds:
@@ -299,7 +304,8 @@ class Monitor:
         img = bytes.fromhex(a[1]) if len(a) > 1 and a[1] != "UNBOUND" else b""
         kv = dict(x.split("=", 1) for x in right.split())
         lab, end, pad, aux = int(kv["lab"]), int(kv["end"]), int(kv["pad"]), kv["aux"]
-        name = ["x86-assembler", "x86-builder", "a64-assembler", "x86-compiler", "x86-assembler-logged", "x86-compiler-local"][mode]
+        name = ["x86-assembler", "x86-builder", "a64-assembler", "x86-compiler", "x86-assembler-logged", "x86-compiler-local",
+                "a64-builder", "a64-compiler"][mode]
         logged = None
         if ",log=" in aux:
             aux, _, logged = aux.partition(",log=")
@@ -311,6 +317,13 @@ class Monitor:
             pre = lab   # the pool follows a function body of unknown length: only the alignment of the label is judged
         if lab % al or not (pre <= lab < pre + al):   # padding bytes before the label are the emitter's (0xCC on x86), not the pool's
             self.report("C19/embed/%s/label-misaligned" % name, "prefix %d, alignment %d, pool label bound at %d" % (pre, al, lab))
+        cov = bytearray(len(img))
+        for (o, s_, _) in self.stored:
+            cov[o:o + s_] = b"\x01" * len(cov[o:o + s_])
+        for i, b in enumerate(img):
+            if not cov[i] and b:
+                self.report("C19/embed/%s/gap-not-zero" % name, "byte %d of the embedded pool is %#x but no constant covers it (the destination was not zero before)" % (i, b))
+                break
         if self.last_f is not None and img != self.last_f:
             self.report("C19/embed/%s/image-differs" % name, "embedded bytes differ from fill(): %s vs %s" % (img.hex()[:200], self.last_f.hex()[:200]))
         if logged is not None and self.q is not None and self.q[0] > 0:
@@ -328,7 +341,7 @@ class Monitor:
 
     def on_x(self, cmd, ans):
         mode = int(cmd.split()[1])
-        name = ["x86-compiler-global", "x86-compiler-local", "x86-builder"][mode]
+        name = ["x86-compiler-global", "x86-compiler-local", "x86-builder", "x86-compiler-3-functions"][mode]
         a = ans.split()
         if a[1:2] == ["UNSUPPORTED"]:
             return
@@ -484,8 +497,10 @@ def run(ck):
             print("MONITOR %s at line %d: %s" % (key, i, what))
         return 0
 
-    ck.coq_properties()
-    ck.log("theorems: %d, failed: %d" % (len(ck.obligations), len(ck.proof_failures())))
+    # the stages are independent: theorems (make + coqc), sanitizer build and the streams run concurrently
+    bg = ThreadPoolExecutor(max_workers=4)
+    f_coq = bg.submit(ck.coq_properties)
+    f_asan = bg.submit(ck.build_harness, "c19", ["c19_harness.cpp"], "asan")
 
     rng = random.Random(ck.seed * 7919 + 19)
     quick = ck.tier == "quick"
@@ -526,7 +541,14 @@ def run(ck):
     dist["adds_by_size"] = sizes_hist
     ck.log("sequences: %d (%d fixed, %d exhaustive, %d random), %d commands, %d adds" % (len(seqs), n_fixed, n_ex, n_rand, total_lines, n_adds))
 
-    tmo = 100 if quick else 2400    # generous: the machine may be loaded; a timeout is reported as a hang
+    tmo = 150 if quick else 2400    # generous: the machine may be loaded; a timeout is reported as a hang
+    step = 8 if quick else 4
+    sub = list(range(n_fixed)) + list(range(n_fixed, len(seqs), step))
+
+    def run_asan():
+        asan_exe = f_asan.result()
+        return asan_exe, run_chunks(asan_exe, [seqs[j] for j in sub], max(2, vlib.NPROC // 2), tmo)
+    f_san = bg.submit(run_asan)
     with ThreadPoolExecutor(max_workers=2) as ex:
         fi = ex.submit(run_chunks, impl, seqs, max(2, vlib.NPROC // 2), tmo)
         fm = ex.submit(run_chunks, model, seqs, max(2, vlib.NPROC // 2), tmo)
@@ -553,6 +575,8 @@ def run(ck):
     for si, (lines, ai) in enumerate(zip(seqs, ri)):
         if ai is None or (not quick and si >= n_fixed + n_ex and si % 4):
             continue
+        if quick and si >= n_fixed + n_ex and si % 4 and sum(1 for l in lines if l[0] == "A") > 60:
+            continue    # the judge is quadratic in the history length: in the quick tier long random histories are sampled 1 in 4
         # one transcript per (Q, F) snapshot: the last one and up to two earlier ones (stability: earlier constants must still read back)
         snaps = [i for i in range(1, len(lines)) if lines[i] == "F" and lines[i - 1] == "Q"]
         snaps = snaps[-1:] + snaps[:-1][:2]
@@ -571,43 +595,7 @@ def run(ck):
                 jseqs.append(jl); jidx.append(si)
         except (IndexError, ValueError):
             continue
-    rj, fail_j = run_chunks(model, jseqs, max(2, vlib.NPROC // 2), tmo)
-    n_judged = 0
-    for jl, aj, si in zip(jseqs, rj, jidx):
-        if aj is None:
-            continue
-        n_judged += 1
-        if aj[-1].strip() != "J 1":
-            ck.violation("C19/coq-judge-rejects", "the proven judge (ConstPoolJudge.judge, C19_judge_sound) rejects the transcript of the implementation "
-                         "for a history of %d adds (answer %r)" % (len(jl) - 2, aj[-1]), {"commands": seqs[si], "impl": ri[si][-4:]})
-    if fail_j:
-        ck.violation("C19/model-driver-crash", "judge stream failed: %s" % (fail_j[:1],), {"detail": str(fail_j[:1]), "broken": "ml/c19_driver.ml (judge)"}, no_input=True)
-    ck.log("coq judge: %d transcripts of the implementation judged" % n_judged)
-
-    # the same streams under ASan/UBSan (memory safety of add/fill/embed on the generated histories; exploration, not an obligation)
-    step = 8 if quick else 4
-    sub = list(range(n_fixed)) + list(range(n_fixed, len(seqs), step))
-    if fail_i:
-        sub = []        # the plain build already died or hung (reported above): do not wait for the sanitizer build to do the same
-        ra, fail_a = [], []
-    else:
-        asan = ck.build_harness("c19", ["c19_harness.cpp"], variant="asan")
-        ra, fail_a = run_chunks(asan, [seqs[j] for j in sub], max(2, vlib.NPROC // 2), tmo * 2)
-    ck.log("sanitizer streams done (%d sequences)" % len(sub))
-    for (rc, err, ci) in fail_a[:4]:
-        lines = seqs[sub[ci]]
-        rc2, ans2, err2 = run_stream(asan, lines, 40)
-        rep = [l for l in err2.splitlines() if "ERROR" in l or "runtime error" in l][:2]
-        ck.violation("C19/sanitizer", "ASan/UBSan build of the implementation failed (rc=%s) on a history of %d adds: %s" % (rc2, sum(1 for l in lines if l[0] == "A"), rep or err2[-300:]),
-                     {"commands": lines[:len(ans2) + 1], "stderr": err2[-1500:]}, no_input=(rc2 == 0))
-    san_diff = sum(1 for j, a in zip(sub, ra) if a is not None and ri[j] is not None and a != ri[j])
-    if san_diff:
-        j = next(j for j, a in zip(sub, ra) if a is not None and ri[j] is not None and a != ri[j])
-        ck.violation("C19/sanitizer-build-differs", "the sanitizer build answers differently from the plain build on %d sequences (uninitialised memory?)" % san_diff,
-                     {"commands": seqs[j]})
-    skipped = sum(1 for x in ri if x is None)
-    if skipped:
-        ck.notes.append("%d sequences were not executed by the implementation because their harness process died or hung" % skipped)
+    f_judge = bg.submit(run_chunks, model, jseqs, max(2, vlib.NPROC // 2), tmo)     # judged while the monitor runs below
 
     disagreements = 0
     served = {}
@@ -654,6 +642,45 @@ def run(ck):
                 if not found and first_corr is None:
                     first_corr = (lines[:i + 1], x, y)
                 break
+    rj, fail_j = f_judge.result()
+    n_judged = 0
+    for jl, aj, si in zip(jseqs, rj, jidx):
+        if aj is None:
+            continue
+        n_judged += 1
+        if aj[-1].strip() != "J 1":
+            ck.violation("C19/coq-judge-rejects", "the proven judge (ConstPoolJudge.judge, C19_judge_sound) rejects the transcript of the implementation "
+                         "for a history of %d adds (answer %r)" % (len(jl) - 2, aj[-1]), {"commands": seqs[si], "impl": ri[si][-4:]})
+    if any(rc != 124 for (rc, _, _) in fail_j):
+        ck.violation("C19/model-driver-crash", "judge stream failed: %s" % (fail_j[:1],), {"detail": str(fail_j[:1]), "broken": "ml/c19_driver.ml (judge)"}, no_input=True)
+    elif fail_j:
+        # the judge is a terminating Coq function (quadratic in the history length): a timeout means a loaded machine, not a verdict
+        ck.notes.append("%d judge shards hit the %ds time limit; their remaining transcripts were not judged" % (len(fail_j), tmo))
+    ck.log("coq judge: %d transcripts of the implementation judged" % n_judged)
+
+    # the same streams under ASan/UBSan (memory safety of add/fill/embed on the generated histories; exploration, not an obligation)
+    asan, (ra, fail_a) = f_san.result()
+    if fail_i:
+        sub, ra, fail_a = [], [], []    # the plain build already died or hung (reported above)
+    ck.log("sanitizer streams done (%d sequences)" % len(sub))
+    for (rc, err, ci) in fail_a[:4]:
+        lines = seqs[sub[ci]]
+        rc2, ans2, err2 = run_stream(asan, lines, 40)
+        rep = [l for l in err2.splitlines() if "ERROR" in l or "runtime error" in l][:2]
+        ck.violation("C19/sanitizer", "ASan/UBSan build of the implementation failed (rc=%s) on a history of %d adds: %s" % (rc2, sum(1 for l in lines if l[0] == "A"), rep or err2[-300:]),
+                     {"commands": lines[:len(ans2) + 1], "stderr": err2[-1500:]}, no_input=(rc2 == 0))
+    san_diff = sum(1 for j, a in zip(sub, ra) if a is not None and ri[j] is not None and a != ri[j])
+    if san_diff:
+        j = next(j for j, a in zip(sub, ra) if a is not None and ri[j] is not None and a != ri[j])
+        ck.violation("C19/sanitizer-build-differs", "the sanitizer build answers differently from the plain build on %d sequences (uninitialised memory?)" % san_diff,
+                     {"commands": seqs[j]})
+    skipped = sum(1 for x in ri if x is None)
+    if skipped:
+        ck.notes.append("%d sequences were not executed by the implementation because their harness process died or hung" % skipped)
+
+    f_coq.result()
+    bg.shutdown()
+    ck.log("theorems: %d, failed: %d" % (len(ck.obligations), len(ck.proof_failures())))
     if first_corr is not None and not any(not v["no_input"] for v in ck.violations):
         lines, x, y = first_corr
         ck.violation("C19/correspondence", "implementation and proven model disagree after %r: impl %r, model %r; the independent monitor found no violated "
